@@ -163,6 +163,7 @@ class Ctx:
         self.axioms = []        # definitional constraints of abstraction variables
         self.tf = {}            # (fname, arg sexpr) -> (var, arg)
         self.tfvar = {}         # var id -> (fname, arg, var)
+        self.tfc = {}           # canonical-form key -> var
         self.fresh_n = 0
         self.ops = {}
         self.funcs = set()      # qualified names of pypose functions executed under the engine
@@ -206,8 +207,21 @@ class Ctx:
         key = (name, a.sexpr())
         if key in self.tf:
             return self.tf[key][0]
+        # canonical polynomial form of small arguments, so that algebraically equal arguments share one abstraction variable
+        ckey = None
+        if len(key[1]) < 1500:
+            try:
+                ckey = (name, 'canon:' + z3.simplify(a, som=True, sort_sums=True).sexpr())
+                if ckey in self.tfc:
+                    v = self.tfc[ckey]
+                    self.tf[key] = (v, a)
+                    return v
+            except z3.Z3Exception:
+                ckey = None
         v = self.fresh(name)
         self.tf[key] = (v, a)
+        if ckey is not None:
+            self.tfc[ckey] = v
         self.tfvar[v.get_id()] = (name, a, v)
         if name in _MP_FUNCS and not z3.is_rational_value(a):
             cv = self.const_value(a)
@@ -298,10 +312,10 @@ class Ctx:
             return False
         k = pred.get_id()
         if k in self.decided:
-            return self.decided[k]
+            return self.decided[k][0]
         npred = simp(z3.Not(pred))
         if npred.get_id() in self.decided:
-            return not self.decided[npred.get_id()]
+            return not self.decided[npred.get_id()][0]
         i = len(self.trace)
         if i >= self.max_decisions:
             raise BoundExhausted("more than %d decisions on one path" % self.max_decisions)
@@ -324,8 +338,9 @@ class Ctx:
             self.deviated = True
         self.trace.append((pred, taken, alt))
         self.pc.append(pred if taken else npred)
-        self.decided[k] = taken
-        self.decided[npred.get_id()] = not taken
+        # (the terms are stored with the verdict: z3 AST ids are only unique among LIVE terms)
+        self.decided[k] = (taken, pred)
+        self.decided[npred.get_id()] = (not taken, npred)
         return taken
 
 
@@ -535,6 +550,12 @@ class SymMode(TorchDispatchMode):
             self.ctx.env[n] = v
         self.write(t, vs)
         return vs
+
+    def bools(self, t):
+        """python bools of a (possibly symbolic) bool tensor, consistent with the path condition (decides what is undecided)"""
+        ts = self.terms(t)
+        vals = self.concrete_vals(t)
+        return [bool(v) if x is None else self.ctx.decide(to_bool(x), bool(v)) for x, v in zip(ts, vals)]
 
     def set_terms(self, t, terms):
         self.write(t, list(terms))
@@ -1772,3 +1793,191 @@ def _linalg_check_errors(m, func, args, kwargs):
     if not ok:
         raise torch.linalg.LinAlgError('%s: the input is not positive-definite / factorisation failed (symbolic status flag != 0)' % args[1])
     return None
+
+
+# --------------------------------------------------------------------------- order-dependent kernels (decisions)
+
+def _decide_order(m, ts, descending=False):
+    """sort indices of the term list by decisions on pairwise comparisons (insertion sort; ties resolved as the decision
+    falls: harnesses exclude ties by assumption where indices matter).  Returns the permutation (list of indices)."""
+    order = []
+    for i in range(len(ts)):
+        pos = len(order)
+        for k, j in enumerate(order):
+            # does i come before j ?
+            pred = (ts[i] > ts[j]) if descending else (ts[i] < ts[j])
+            if m.ctx.decide(pred, None):
+                pos = k
+                break
+        order.insert(pos, i)
+    return order
+
+
+def _rows_along(x, dim):
+    """[(list of flat element ids along dim)] for every other index combination, and the output layout helper"""
+    with _disable_current_modes():
+        ids = torch.arange(x.numel()).view(x.shape).movedim(dim, -1)
+        lead = ids.shape[:-1]
+        return ids.reshape(-1, x.shape[dim]).tolist(), lead
+
+
+@handler('aten.topk.default')
+def _topk(m, func, args, kwargs):
+    x, k = args[0], args[1]
+    dim = args[2] if len(args) > 2 else kwargs.get('dim', -1)
+    largest = args[3] if len(args) > 3 else kwargs.get('largest', True)
+    dim = dim % x.dim()
+    ft = [to_real(t) for t in m.full_terms(x)]
+    rows, lead = _rows_along(x, dim)
+    vals_t, idx_c = [], []
+    for row in rows:
+        perm = _decide_order(m, [ft[e] for e in row], descending=largest)[:k]
+        vals_t.append([ft[row[p]] for p in perm])
+        idx_c.append(perm)
+    with _disable_current_modes():
+        idx = torch.tensor(idx_c, dtype=torch.int64).view(tuple(lead) + (k,)).movedim(-1, dim).contiguous()
+        vals = torch.gather(x.detach(), dim, idx).contiguous()
+    flat_terms = [None] * vals.numel()
+    with _disable_current_modes():
+        pos = torch.arange(vals.numel()).view(vals.shape).movedim(dim, -1).reshape(-1, k).tolist()
+    for r, prow in enumerate(pos):
+        for c, e in enumerate(prow):
+            flat_terms[e] = vals_t[r][c]
+    m.write(vals, flat_terms)
+    m.clear(idx)
+    return torch.return_types.topk((vals, idx))
+
+
+@handler('aten.sort.default', 'aten.sort.stable', 'aten.argsort.default', 'aten.argsort.stable')
+def _sort(m, func, args, kwargs):
+    x = args[0]
+    dim = kwargs.get('dim', -1)
+    descending = kwargs.get('descending', False)
+    pos_args = [a for a in args[1:] if not isinstance(a, torch.Tensor)]
+    name = str(func)
+    if 'stable' in name:
+        # (self, *, stable, dim, descending)
+        if len(pos_args) > 1:
+            dim = pos_args[1]
+        if len(pos_args) > 2:
+            descending = pos_args[2]
+    else:
+        if len(pos_args) > 0:
+            dim = pos_args[0]
+        if len(pos_args) > 1:
+            descending = pos_args[1]
+    dim = dim % x.dim() if x.dim() else 0
+    ft = [to_real(t) for t in m.full_terms(x)]
+    rows, lead = _rows_along(x, dim)
+    n = x.shape[dim] if x.dim() else 1
+    perms = [_decide_order(m, [ft[e] for e in row], descending=descending) for row in rows]
+    with _disable_current_modes():
+        idx = torch.tensor(perms, dtype=torch.int64).view(tuple(lead) + (n,)).movedim(-1, dim).contiguous()
+        vals = torch.gather(x.detach(), dim, idx).contiguous()
+        pos = torch.arange(vals.numel()).view(vals.shape).movedim(dim, -1).reshape(-1, n).tolist()
+    flat_terms = [None] * vals.numel()
+    for r, prow in enumerate(pos):
+        for c, e in enumerate(prow):
+            flat_terms[e] = ft[rows[r][perms[r][c]]]
+    m.clear(idx)
+    if 'argsort' in name:
+        return idx
+    m.write(vals, flat_terms)
+    return torch.return_types.sort((vals, idx))
+
+
+@handler('aten.min.dim', 'aten.max.dim')
+def _minmax_dim(m, func, args, kwargs):
+    """values as If-chains (no decision); the index output is made symbolic-opaque (fresh ints) so that any use of it as an
+    index is reported as not encoded instead of silently following the concrete payload"""
+    x, dim = args[0], args[1]
+    out = func(*args, **kwargs)
+    rows = _reduce_rows(x, dim)
+    ft = [to_real(t) for t in m.full_terms(x)]
+    ismax = 'max' in str(func)
+    m.write(out[0], [_minmax_terms([ft[i] for i in row], ismax) for row in rows])
+    m.write(out[1], [m.ctx.fresh('argidx', 'int') for _ in range(out[1].numel())])
+    return out
+
+
+@handler('aten.argmin.default', 'aten.argmax.default')
+def _argminmax(m, func, args, kwargs):
+    x = args[0]
+    dim = args[1] if len(args) > 1 else kwargs.get('dim', None)
+    keepdim = args[2] if len(args) > 2 else kwargs.get('keepdim', False)
+    ft = [to_real(t) for t in m.full_terms(x)]
+    ismax = 'max' in str(func)
+    if dim is None:
+        rows, lead = [list(range(x.numel()))], ()
+    else:
+        rows, lead = _rows_along(x, dim % x.dim())
+    res = [_decide_order(m, [ft[e] for e in row], descending=ismax)[0] for row in rows]
+    with _disable_current_modes():
+        out = torch.tensor(res, dtype=torch.int64).view(tuple(lead))
+        if keepdim and dim is not None:
+            out = out.unsqueeze(dim)
+    m.clear(out)
+    return out
+
+
+@handler('aten.unique_dim.default', 'aten._unique2.default')
+def _unique(m, func, args, kwargs):
+    """unique rows of a symbolic integer tensor: pairwise equality / lexicographic order of rows are decisions; the real kernel is
+    then run on concrete surrogate rows (ranks) that realise the decided pattern"""
+    x = args[0]
+    name = str(func)
+    if 'unique_dim' in name:
+        dim = args[1] % x.dim()
+        if dim != 0 or x.dim() != 2:
+            raise Unsupported('unique along a dim other than rows of a 2-D tensor')
+        N, D = x.shape
+        ft = m.full_terms(x)
+        rows = [[to_real(t) for t in ft[i * D:(i + 1) * D]] for i in range(N)]
+    else:
+        N, D = x.numel(), 1
+        rows = [[to_real(t)] for t in m.full_terms(x)]
+
+    def lex_lt(a, b):
+        # a < b lexicographically
+        expr = z3.BoolVal(False)
+        for u, v in reversed(list(zip(a, b))):
+            expr = z3.Or(u < v, z3.And(u == v, expr))
+        return expr
+    # insertion into ordered classes
+    classes = []        # list of lists of row ids, ordered ascending
+    for i in range(N):
+        placed = False
+        for ci, cl in enumerate(classes):
+            rep = rows[cl[0]]
+            if m.ctx.decide(z3.And([u == v for u, v in zip(rows[i], rep)]), None):
+                cl.append(i)
+                placed = True
+                break
+            if m.ctx.decide(lex_lt(rows[i], rep), None):
+                classes.insert(ci, [i])
+                placed = True
+                break
+        if not placed:
+            classes.append([i])
+    rank = {}
+    for r, cl in enumerate(classes):
+        for i in cl:
+            rank[i] = r
+    with _disable_current_modes():
+        if 'unique_dim' in name:
+            sur = torch.tensor([[rank[i]] + [0] * (D - 1) for i in range(N)], dtype=x.dtype)
+            out = func(sur, *args[1:], **kwargs)
+        else:
+            sur = torch.tensor([rank[i] for i in range(N)], dtype=x.dtype).view(x.shape)
+            out = func(sur, *args[1:], **kwargs)
+    # unique values: terms of each class representative, in class order
+    uniq = out[0]
+    ut = []
+    for cl in classes:
+        ut += rows[cl[0]]
+    with _disable_current_modes():
+        uq = torch.zeros(uniq.shape if 'unique_dim' not in name else (len(classes), D), dtype=x.dtype)
+    m.write(uq, ut)
+    for o in out[1:]:
+        m.clear(o)
+    return (uq,) + tuple(out[1:])
